@@ -224,6 +224,15 @@ theorem memOfPath (h : InvC U s hb C) {l : List Blk} {o : Blk} (hp : Path s.stor
   · rw [h2]; simp
   · rw [hl, h1]; simp
 
+/-- a parent walk from the head in any extension of the store is a walk in the store itself -/
+theorem pathFromHead (h : InvC U s hb C) {store' : Map Blk} (hext : StoreExt s.store store') {l : List Blk} {o : Blk}
+    (hp : Path store' hb l o) : Path s.store hb l o := by
+  have hn := hp.number
+  obtain ⟨l1, l2, z, hl, hp1, hp2, hz⟩ := h.path.split o.number (by rw [h.genNum]; omega) (by omega)
+  have := hp.det (hp1.mono hext) hz.symm
+  rw [this.1, this.2]
+  exact hp1
+
 end InvC
 
 /-! ### the new-chain lemma -/
